@@ -156,7 +156,8 @@ fn facts_pass(ctx: &Ctx, patterns: &[Node], texts: &[String]) -> Acc {
             return;
         };
         let ngroups = facts.end_group;
-        let compiles = matches!(compile(&s), Got::Val(_));
+        let compiled = compile(&s);
+        let compiles = matches!(compiled, Got::Val(_));
         let mut obs = Obs::new();
         let mut complete = true;
         for t in texts {
@@ -195,6 +196,21 @@ fn facts_pass(ctx: &Ctx, patterns: &[Node], texts: &[String]) -> Acc {
                         }
                     }
                 }
+            }
+        }
+        // a look-behind with an alternative of two observed lengths: compilation fails, and it
+        // fails with the look-behind-not-constant error (not a panic, not another error)
+        if !compiles {
+            let variable = rows.iter().any(|row| row.lb_alts.iter().any(|alt| obs.get(alt).map_or(false, |l| l.len() > 1)));
+            if variable {
+                acc.count("variable-lookbehind-rejections-checked");
+                match &compiled {
+                    Got::Err(e) if e.contains("LookBehindNotConst") => {}
+                    other => acc.violate(Violation::new("C13", "lookbehind-error-kind", &s, "", 0, "Regex::new", "Err(CompileError(LookBehindNotConst)): a look-behind alternative shows two lengths".into(), other.show())),
+                }
+            } else if complete {
+                // the converse is not claimed by the property: recorded, never judged
+                acc.count(if matches!(&compiled, Got::Err(e) if e.contains("LookBehindNotConst")) { "rejected-as-not-constant-although-one-length-observed (recorded only)" } else { "rejected-for-another-reason" });
             }
         }
         acc.sample(1, || json!({"pattern": s, "nodes": rows.len(), "observed": obs.iter().map(|(k, v)| format!("#{} {} min={} const={} lens={:?}", k, rows[*k].kind, rows[*k].min_size, rows[*k].const_size, v)).collect::<Vec<_>>()}));
@@ -259,11 +275,12 @@ pub fn run(ctx: &Ctx) -> Outcome {
     acc.merge(acc3);
     let mut out = Outcome::new(acc);
     out.distinct_nontrivial = out.acc.distinct;
-    out.rule = format!("(1) facts monitor: every pattern of [{}] that analyses; the crate's own parse tree is translated node for node into the reference AST and the reference matcher enumerates, over all {} texts of 1-4 byte characters up to length {}, the character length of every completed sub-match on every explored path; violation = a length below min_size, or a length different from min_size / two lengths for a node judged const_size. (2) for every compiled pattern each top-level alternative of a look-behind body must show one length only. (3) C01-style differential on {} look-behind patterns (C01 space + multi-byte look-behind contexts) x {} multi-byte texts x every offset (the reference look-behind is length-agnostic). Non-trivial: nodes with >= 2 distinct observed lengths (they can refute a const_size claim) plus look-behind patterns that matched and failed ({}).", sp.describe, texts.len(), ctx.tier.pick(2, 3), n_lb, texts3.len(), mb_lb);
+    out.rule = format!("(1) facts monitor: every pattern of [{}] that analyses; the crate's own parse tree is translated node for node into the reference AST and the reference matcher enumerates, over all {} texts of 1-4 byte characters up to length {}, the character length of every completed sub-match on every explored path; violation = a length below min_size, or a length different from min_size / two lengths for a node judged const_size. (2) for every compiled pattern each top-level alternative of a look-behind body must show one length only; a pattern that does not compile and has a look-behind alternative with two observed lengths must fail with CompileError(LookBehindNotConst). (3) C01-style differential on {} look-behind patterns (C01 space + multi-byte look-behind contexts) x {} multi-byte texts x every offset (the reference look-behind is length-agnostic). Non-trivial: nodes with >= 2 distinct observed lengths (they can refute a const_size claim) plus look-behind patterns that matched and failed ({}).", sp.describe, texts.len(), ctx.tier.pick(2, 3), n_lb, texts3.len(), mb_lb);
     out.assumptions = vec!["the converse (every fixed-length body is accepted) is not claimed by the property and not checked".into(), "hook H4 (verif_facts) mirrors analyze::Info node for node".into()];
     let (nodes, lbc) = (out.acc.get("nodes-observed"), out.acc.get("lookbehind-alternatives-checked"));
     out.extra = json!({"nodes_observed": nodes, "lookbehind_alternatives_checked": lbc, "hooks": HOOKS});
     out.require(!HOOKS || nodes > 0, "facts monitor observed no node");
     out.require(!HOOKS || lbc > 0, "no accepted look-behind was checked");
+    out.require(!HOOKS || out.acc.get("variable-lookbehind-rejections-checked") > 0, "no rejected variable-length look-behind was observed");
     out
 }
